@@ -1,5 +1,5 @@
 import AfkakProofs.Consumer.Trace
-import AfkakProofs.Consumer.B_Quiet3
+import AfkakProofs.Consumer.B5_QuietG9
 import AfkakProps.Open.C13
 /-!
 # C13 — stop and shutdown leave nothing running and report once
@@ -150,26 +150,32 @@ theorem C13_no_crash_counterexample : ¬ Afkak.Props.Open.C13.C13_no_crash := by
   revert h1
   decide +kernel
 
-/-- Quiescence after `stop()` on EVERY trace of a consumer without a consumer group, at every depth ≥ 2 (the
-    harness runs depth 4): whatever the events, cancel outcomes and re-entrant calls, when `stop()` returns (and
-    when a graceful `shutdown()` reports success) no timer is armed, no uncancelled request is outstanding and no
-    processor result is pending, and there is no fetch / offset / processor / timer activity until the next
-    `start()`.  (With a consumer group the commit side - commit requests, the commit retry timer, the
-    auto-commit looper, the Deferreds waiting for a commit - is live: that part of `C13_quiescent_after_stop`
-    stays open.)  The proof is the invariant `B.QF` relating the monitor's state to the model's along the trace. -/
-theorem C13_quiescent_after_stop_partial (cfg : Cfg) (script : List PEntry) (evs : List Ev)
-    (hg : cfg.group = false) (hd : 2 ≤ cfg.depth) :
+/-- Quiescence after `stop()` on EVERY trace, with or without a consumer group, at every depth ≥ 2 (the harness
+    runs depth 4; re-entrant calls never nest deeper than 2 in the model): whatever the events, cancel outcomes,
+    commit outcomes and re-entrant calls, when `stop()` returns (and when a graceful `shutdown()` reports success)
+    no timer is armed - refetch, commit retry, auto-commit looper -, no uncancelled fetch / offset / commit request is
+    outstanding and no processor result is pending, and there is no fetch / offset / processor / timer activity until
+    the next `start()`, and no commit activity either unless the application itself calls `commit()` on the stopped
+    consumer.  The proof is the invariant `BG.QG` relating the monitor's state to the model's along the trace
+    (`AfkakProofs/Consumer/B_QuietG1-7.lean`, `B5_QuietG8-9.lean`). -/
+theorem C13_quiescent_after_stop_partial (cfg : Cfg) (script : List PEntry) (evs : List Ev) (hd : 2 ≤ cfg.depth) :
     C13.quiescentOk (trace cfg script evs) = true := by
   letI : EnvHyp := ⟨False⟩
   have hd' : cfg.depth = (cfg.depth - 2) + 2 := by omega
-  exact accepts_trace _ _ cfg script evs (B.run_q hg (cfg.depth - 2) hd' script evs).ok
+  exact accepts_trace _ _ cfg script evs (BG.run_q (cfg.depth - 2) hd' script evs).1.ok
 
-/-! Non-vacuity: a configuration the partial theorem speaks about, and a trace of it on which `stop()` has
-    something to cancel (a fetch in flight) - the monitor has to see the cancellation to accept. -/
+/-! Non-vacuity: a configuration the partial theorem speaks about (consumer group, depth 4), and a trace of it on
+    which `stop()` has something to cancel on the commit side (a manual commit in flight: request 1) and a refetch
+    timer armed - the monitor has to see both cancellations to accept. -/
+def qCfg : Cfg :=
+  { group := true, autoN := 0, autoS := 0, bufInit := 100, bufMax := none, retryInit := 1 / 4, retryMax := 2,
+    maxAttempts := 0, reset := none, depth := 4 }
+def qEvs : List Ev := [.start 0, .fetchOk 0 { msgs := [{ off := 0, pid := 1 }], tail := .done }, .commit, .stop]
+
 example :
-    let cfg : Cfg := { d0Cfg with depth := 4 }
-    cfg.group = false ∧ 2 ≤ cfg.depth ∧
-      (trace cfg [] [.start 0, .stop]).filterMap (fun | .ob (.cancelReq k) => some k | _ => none) = [0] := by
+    2 ≤ qCfg.depth ∧
+      (trace qCfg [] qEvs).filterMap (fun | .ob (.cancelReq k) => some k | _ => none) = [1] ∧
+      (trace qCfg [] qEvs).filterMap (fun | .ob (.cancelTimer t) => some t | _ => none) = [.retry] := by
   decide +kernel
 
 end Afkak.Props.C13
